@@ -6,6 +6,7 @@ import (
 	"go/constant"
 	"go/token"
 	"go/types"
+	"strconv"
 	"unicode"
 
 	"golang.org/x/tools/go/ssa"
@@ -185,7 +186,7 @@ func (e *peEnv) eval(v ssa.Value) (constant.Value, bool) {
 		}
 	case *ssa.Call:
 		name := sx.CalleeName(x)
-		if name == "unicode.IsSpace" || name == "unicode.IsPrint" || name == "unicode.IsControl" || name == "unicode.IsGraphic" {
+		if name == "unicode.IsSpace" || name == "unicode.IsPrint" || name == "unicode.IsControl" || name == "unicode.IsGraphic" || name == "strconv.IsPrint" || name == "strconv.IsGraphic" {
 			if a, ok := e.eval(x.Call.Args[0]); ok {
 				k, _ := constant.Int64Val(constant.ToInt(a))
 				var res bool
@@ -198,6 +199,10 @@ func (e *peEnv) eval(v ssa.Value) (constant.Value, bool) {
 					res = unicode.IsControl(rune(k))
 				case "unicode.IsGraphic":
 					res = unicode.IsGraphic(rune(k))
+				case "strconv.IsPrint":
+					res = strconv.IsPrint(rune(k))
+				case "strconv.IsGraphic":
+					res = strconv.IsGraphic(rune(k))
 				}
 				return constant.MakeBool(res), true
 			}
